@@ -1,3 +1,3 @@
-CONSTANT Want = {"C06_Disjoint", "C06_ConflictWF"}
+CONSTANT Want = {"C06_Disjoint", "C06_ConflictWF", "C06_ConflictListsWF"}
 SPECIFICATION TSpec
 CHECK_DEADLOCK FALSE
